@@ -112,6 +112,18 @@ def run(payload):
             ok = ok and abs(rec.times[-1] - (t0 + T)) < 1e-9
         if not ok:
             fail("adaptive_schedule", backend=backend, solver=solver, t0=t0, T=T, D=D, times=rec.times, scheduled=sched, t_final=tf)
+    # ---- a constant interval whose own activation time lies BEFORE the start of the run
+    from pde.trackers.interrupts import ConstantInterrupts as _CI
+    for backend in ("numpy", "numba"):
+        t0, dt, D = 2.0, 0.125, 1.0
+        rec = Rec(_CI(D, t_start=t0 - 1.5))
+        cases += 1
+        eq.solve(ScalarField(grid, rng.uniform(0, 1, 5)), t_range=(t0, t0 + 4), dt=dt, tracker=[rec], backend=backend, solver="euler")
+        # (which of the two lattices -- run start + k*D or activation time + k*D -- is meant is the C09 known finding; both
+        # have calls exactly one interval apart)
+        gaps = [b - a for a, b in zip(rec.times, rec.times[1:])]
+        if len(rec.times) not in (4, 5) or any(abs(gp - D) > 1e-9 for gp in gaps):
+            fail("constant_interval_calls_are_not_one_interval_apart", backend=backend, t_range=[t0, t0 + 4], interval=D, activation=t0 - 1.5, times=rec.times, gaps=gaps)
     # ---- adaptive steppers with trackers of DIFFERENT intervals (the adaptive step grows far beyond the gaps between
     #      their scheduled times): every tracker is still served at each of its own scheduled times
     for solver in ("euler", "runge-kutta"):
